@@ -81,7 +81,6 @@ var xtypes = []xtype{
 	{"TIMESTAMP", cDtm, []string{"'1970-01-01 00:00:01'", "'2020-02-29 12:00:00'", "'2038-01-19 03:14:07'"}},
 	{"TIMESTAMP(3)", cDtm, []string{"'1970-01-01 00:00:01.001'", "'2038-01-19 03:14:07.999'"}},
 	{"TIME", cTime, []string{"'-838:59:59'", "'00:00:00'", "'12:30:00'", "'838:59:59'"}},
-	{"YEAR", cInt, []string{"1901", "2000", "2155", "0"}},
 	{"ENUM('a','b','c')", cStr, []string{"'a'", "'b'", "'c'"}},
 	{"SET('x','y','z')", cStr, []string{"''", "'x'", "'x,z'", "'x,y,z'"}},
 	{"BIT(5)", cInt, []string{"b'0'", "b'101'", "b'11111'"}},
@@ -250,11 +249,11 @@ var tmpls = []tmpl{
 	{"UNHEX", "UNHEX({S})", cBin}, {"BIN", "BIN({I})", cStr}, {"OCT", "OCT({I})", cStr}, {"CONV", "CONV({A}, 10, 16)", cStr}, {"INSTR", "INSTR({S}, {S})", cInt}, {"LOCATE", "LOCATE({S}, {S})", cInt}, {"ASCII", "ASCII({S})", cInt},
 	{"ORD", "ORD({S})", cInt}, {"SPACE", "SPACE({i})", cStr}, {"STRCMP", "STRCMP({S}, {S})", cInt}, {"FIELD", "FIELD({A}, {A}, {A})", cInt}, {"ELT", "ELT({i}, {S}, {S})", cStr}, {"FORMAT", "FORMAT({N}, {i})", cStr}, {"INSERT", "INSERT({S}, {i}, {i}, {S})", cStr},
 	{"MD5", "MD5({S})", cStr}, {"SHA1", "SHA1({S})", cStr}, {"SHA2", "SHA2({S}, 256)", cStr}, {"TO_BASE64", "TO_BASE64({A})", cStr}, {"FROM_BASE64", "FROM_BASE64({S})", cBin}, {"QUOTE", "QUOTE({S})", cStr}, {"SOUNDEX", "SOUNDEX({S})", cStr},
-	{"CHAR", "CHAR({I})", cBin}, {"CHAR", "CHAR({I} USING utf8mb4)", cStr}, {"EXPORT_SET", "EXPORT_SET({I}, 'Y', 'N', ',', 4)", cStr}, {"MAKE_SET", "MAKE_SET({I}, 'a', 'b', 'c')", cStr}, {"FIND_IN_SET", "FIND_IN_SET({S}, {S})", cInt},
+	{"CHAR", "CHAR({I})", cBin}, {"EXPORT_SET", "EXPORT_SET({I}, 'Y', 'N', ',', 4)", cStr}, {"MAKE_SET", "MAKE_SET({I}, 'a', 'b', 'c')", cStr}, {"FIND_IN_SET", "FIND_IN_SET({S}, {S})", cInt},
 	{"LIKE", "({S} LIKE {S})", cBool}, {"REGEXP", "({S} REGEXP 'a.*')", cBool}, {"REGEXP_REPLACE", "REGEXP_REPLACE({S}, 'a', 'bb')", cStr}, {"REGEXP_SUBSTR", "REGEXP_SUBSTR({S}, '[a-z]+')", cStr}, {"REGEXP_INSTR", "REGEXP_INSTR({S}, 'b')", cInt},
 	{"CAST", "CAST({A} AS SIGNED)", cInt}, {"CAST", "CAST({A} AS UNSIGNED)", cInt}, {"CAST", "CAST({A} AS CHAR)", cStr}, {"CAST", "CAST({A} AS CHAR(2))", cStr}, {"CAST", "CAST({A} AS BINARY)", cBin}, {"CAST", "CAST({A} AS BINARY(2))", cBin},
 	{"CAST", "CAST({A} AS DECIMAL(5,2))", cDec}, {"CAST", "CAST({A} AS DECIMAL(10))", cDec}, {"CAST", "CAST({A} AS DECIMAL(65,30))", cDec}, {"CAST", "CAST({A} AS DOUBLE)", cFlt}, {"CAST", "CAST({A} AS FLOAT)", cFlt}, {"CAST", "CAST({A} AS DATE)", cDate},
-	{"CAST", "CAST({A} AS DATETIME)", cDtm}, {"CAST", "CAST({A} AS DATETIME(3))", cDtm}, {"CAST", "CAST({A} AS TIME)", cTime}, {"CAST", "CAST({A} AS YEAR)", cInt}, {"CAST", "CAST({S} AS JSON)", cJSON}, {"CONVERT", "CONVERT({A}, CHAR(3))", cStr},
+	{"CAST", "CAST({A} AS DATETIME)", cDtm}, {"CAST", "CAST({A} AS DATETIME(3))", cDtm}, {"CAST", "CAST({A} AS TIME)", cTime}, {"CAST", "CAST({S} AS JSON)", cJSON}, {"CONVERT", "CONVERT({A}, CHAR(3))", cStr},
 	{"CONVERT", "CONVERT({A}, SIGNED)", cInt}, {"CONVERT_USING", "CONVERT({S} USING utf8mb4)", cStr}, {"CONVERT_USING", "CONVERT({S} USING binary)", cBin}, {"BINARY", "(BINARY {S})", cBin}, {"COLLATE", "({S} COLLATE utf8mb4_0900_ai_ci)", cStr},
 	{"COALESCE", "COALESCE({A}, {A})", cAny}, {"COALESCE", "COALESCE({N}, {S})", cStr}, {"COALESCE", "COALESCE({I}, {N}, {F})", cFlt}, {"IFNULL", "IFNULL({A}, {A})", cAny}, {"NULLIF", "NULLIF({A}, {A})", cAny}, {"IF", "IF({L}, {A}, {A})", cAny},
 	{"IF", "IF({L}, {I}, {S})", cStr}, {"IF", "IF({L}, {N}, {D})", cStr}, {"CASE", "CASE WHEN {L} THEN {A} ELSE {A} END", cAny}, {"CASE", "CASE WHEN {L} THEN {A} WHEN {L} THEN {A} END", cAny}, {"CASE", "CASE {A} WHEN {A} THEN {I} WHEN {A} THEN {N} ELSE {S} END", cStr},
@@ -270,7 +269,7 @@ var tmpls = []tmpl{
 	{"UNIX_TIMESTAMP", "UNIX_TIMESTAMP({M})", cDec}, {"FROM_UNIXTIME", "FROM_UNIXTIME({I})", cDtm}, {"FROM_UNIXTIME", "FROM_UNIXTIME({N})", cDtm}, {"TIME", "TIME({M})", cTime}, {"TIMEDIFF", "TIMEDIFF({T}, {T})", cTime}, {"TIMEDIFF", "TIMEDIFF({M}, {M})", cTime},
 	{"SEC_TO_TIME", "SEC_TO_TIME({N})", cTime}, {"TIME_TO_SEC", "TIME_TO_SEC({T})", cInt}, {"MAKEDATE", "MAKEDATE({i}, {i})", cDate}, {"MAKETIME", "MAKETIME({i}, {i}, {i})", cTime}, {"TO_DAYS", "TO_DAYS({D})", cInt}, {"FROM_DAYS", "FROM_DAYS({I})", cDate},
 	{"TO_SECONDS", "TO_SECONDS({M})", cInt}, {"ADDTIME", "ADDTIME({M}, {T})", cDtm}, {"ADDTIME", "ADDTIME({T}, {T})", cTime}, {"SUBTIME", "SUBTIME({T}, {T})", cTime}, {"EXTRACT", "EXTRACT(YEAR_MONTH FROM {D})", cInt}, {"EXTRACT", "EXTRACT(DAY_MICROSECOND FROM {M})", cInt},
-	{"TIMESTAMP", "TIMESTAMP({D})", cDtm}, {"TIMESTAMP", "TIMESTAMP({D}, {T})", cDtm}, {"PERIOD_ADD", "PERIOD_ADD(202001, {i})", cInt}, {"PERIOD_DIFF", "PERIOD_DIFF(202001, 201912)", cInt}, {"CONVERT_TZ", "CONVERT_TZ({M}, '+00:00', '+05:30')", cDtm},
+	{"TIMESTAMP", "TIMESTAMP({D})", cDtm}, {"TIMESTAMP", "TIMESTAMP({D}, {T})", cDtm}, {"PERIOD_ADD", "PERIOD_ADD(202001, {i})", cInt}, {"PERIOD_DIFF", "PERIOD_DIFF(202001, 201912)", cInt},
 	{"JSON_EXTRACT", "JSON_EXTRACT({J}, '$.a')", cJSON}, {"JSON_EXTRACT", "JSON_EXTRACT({J}, '$[0]')", cJSON}, {"->", "({J}->'$.a')", cJSON}, {"->>", "({J}->>'$.a')", cStr}, {"JSON_UNQUOTE", "JSON_UNQUOTE({J})", cStr}, {"JSON_OBJECT", "JSON_OBJECT('k', {A})", cJSON},
 	{"JSON_ARRAY", "JSON_ARRAY({A}, {A})", cJSON}, {"JSON_LENGTH", "JSON_LENGTH({J})", cInt}, {"JSON_DEPTH", "JSON_DEPTH({J})", cInt}, {"JSON_TYPE", "JSON_TYPE({J})", cStr}, {"JSON_VALID", "JSON_VALID({S})", cBool}, {"JSON_CONTAINS", "JSON_CONTAINS({J}, '1')", cBool},
 	{"JSON_KEYS", "JSON_KEYS({J})", cJSON}, {"JSON_SET", "JSON_SET({J}, '$.z', {A})", cJSON}, {"JSON_REMOVE", "JSON_REMOVE({J}, '$.a')", cJSON}, {"JSON_MERGE_PATCH", "JSON_MERGE_PATCH({J}, {J})", cJSON}, {"JSON_QUOTE", "JSON_QUOTE({S})", cStr}, {"JSON_PRETTY", "JSON_PRETTY({J})", cStr},
